@@ -23,6 +23,29 @@ CLAIMED = {
         design="5/C17"),
 }
 
+CLAIMED["C01"] = dict(
+    text=("Theorems about Model/Fdr.v and Model/Results.v for all rankings: each q-value is the minimum over the ranks "
+          "at or below it of (decoys+1)/(targets+1) and is attained; q-values are monotone; for every threshold the "
+          "accepted set is a prefix whose own (decoys+1)/(targets+1) is at most the threshold; a group is a decoy iff "
+          "all members carry a decoy marker; reported rows carry exactly the ranking's (score, q) in order. "
+          "Correspondence: fdr.calculate_protein_fdrs and ProteinGroupResults.from_protein_groups against the model "
+          "evaluated in Coq on generated rankings (ties, mixed groups, sentinels, placeholders)."),
+    note=COMMON_NOTE + "IEEE division correctly rounded (q-values matched to the unique small fraction that rounds to "
+         "the float). Entrapment logging branch not modelled. Axioms: none.",
+    technique="Coq proof (suffix-minimum characterisation over Q) + in-Coq differential correspondence",
+    design="5/C01")
+CLAIMED["C06"] = dict(
+    text=("Theorems about Model/Results.v: per-protein peptide count = number of evidence peptides at or below the "
+          "cutoff listing the protein (once per peptide whatever the multiplicity); full row specification (listed "
+          "proteins with counts in group order, majority = count >= max/2, best peptide = minimal (PEP, peptide), "
+          "number and flags from the listed proteins, score and q unchanged); row omitted iff keep-all is off and all "
+          "counts are zero; rows keep the ranking's non-increasing score order. Correspondence of from_protein_group(s) "
+          "against the model on generated groups incl. repeated identifiers, ties, every cutoff, both keep-all settings."),
+    note=COMMON_NOTE + "Theorems assume one evidence entry per peptide within a group (guaranteed by the pipeline's "
+         "dict keyed by peptide). Axioms: none.",
+    technique="Coq proof (sorted-scan = declarative filter count) + in-Coq differential correspondence",
+    design="5/C06")
+
 ALL = [f"C{i:02d}" for i in range(1, 21)]
 
 
